@@ -35,6 +35,8 @@ FUNCS = {
     "<func>kw": ("num,y=,z=->num", lambda x, y=3, z=-1: x + 2 * y + 4 * z),
     "<func>pair": ("num->num,num", lambda x: (x + 1, x - 1)),
     "<func>noop": ("num->", lambda x: None),
+    "<func>pairlist": ("num->num,num", lambda x: [x + 1, x - 1]),      # two results as a list, not a tuple
+    "<func>tup": ("num->tup", lambda x: (x + 1, x - 1)),               # one result that is itself a tuple
     "<func>h": ("arr->arr", lambda a: 2 * np.asarray(a)),
     "<func>rev": ("arr->arr", lambda a: np.asarray(a)[::-1].copy()),
     "<func>total": ("arr->num", lambda a: float(np.asarray(a).sum())),
@@ -652,7 +654,18 @@ class ScriptGen:
             body = Bin("+", Var(s), self.g_num(D - {s}, 1, counters=ctrs))
             return ("assign", s, None, body, loops, self.mode())
         if k == 4:
-            kind = t.weighted([2, 2 if F.multi_assign else 0, 1, 1 if F.builtins and self.arrs(D) else 0], "callkind")
+            kind = t.weighted([2, 2 if F.multi_assign else 0, 1, 1 if F.builtins and self.arrs(D) else 0,
+                               0.7 if F.multi_assign else 0], "callkind")
+            if kind == 4:
+                # one variable bound to a result that is itself a tuple, handed on as it is
+                tv = self.new_temp(D, "tup", pool=["pr", "tup", "res"], allow_existing=False)
+                if tv is None:
+                    return None
+                e = self.ucall("<func>tup", [self.g_num(D, 1)])
+                D.add(tv)
+                te = [Var("<t>"), Bin("+", Var("<t>"), Var("<dt>"))][t.draw(2, "tupt")]
+                return [("call", (tv,), e, self.mode()),
+                        ("yield", Var(tv), self.pick(COMPONENTS, "comp"), te, self.pick(TIME_IDS, "tid"), self.mode())]
             if kind == 0:
                 e = self.g_usercall_num(D, 1, ())
                 tgt = self.new_temp(D, "float")
@@ -665,7 +678,7 @@ class ScriptGen:
                 b = self.new_temp(D, "float")
                 if a is None or b is None or a == b:
                     return None
-                e = self.ucall("<func>pair", [self.g_num(D, 1)])
+                e = self.ucall(["<func>pair", "<func>pair", "<func>pairlist"][t.draw(3, "pairfn")], [self.g_num(D, 1)])
                 D.add(a)
                 D.add(b)
                 return ("call", (a, b), e, self.mode())
